@@ -2590,7 +2590,14 @@ class op(object):
         for i in  pwl_ineqs:
             mmap[i] = _function()
             for c in pwl_ineqs[i]:
-                mmap[i] = mmap[i] + constraints[0].multiplier[islc[c]]
+                mc = constraints[0].multiplier[islc[c]]
+                if len(c) == 1 != len(i):
+                    # a scalar inequality that stands for len(i) 
+                    # identical inequalities: count its multiplier once
+                    e0 = matrix(0.0, (len(i),1))
+                    e0[0] = 1.0
+                    mc = e0 * mc
+                mmap[i] = mmap[i] + mc
             if len(i) == 1 != len(mmap[i]):
                 mmap[i] = sum(mmap[i])
 
